@@ -78,7 +78,7 @@ def decide(prop, tier, seed=0, use_cache=True, out=sys.stdout):
         ev = {"unit": unit, "status": r["status"], "verus_queries_verified": r.get("verified"), "verus_queries_failed": r.get("errors"),
               "air_asserts": r.get("obligations"), "time_ms": r.get("time_ms"), "cached": r.get("cached", False),
               "functions_under_contract": ["%s::%s (src/%s:%s sha256 %s rules[%s])" % (unit, f["fn"], f["file"], f["line"], f["sha256"][:12], f["rules"]) for f in mine],
-              "rewrite_counts": r.get("rewrite_counts"), "cmd": r.get("cmd")}
+              "rewrite_counts": r.get("rewrite_counts"), "cmd": r.get("cmd"), "extract_warnings": r.get("extract_warnings", [])}
         fn_list += ev["functions_under_contract"]
         for t in r.get("trusted", []):
             trusted.add(t)
